@@ -5,6 +5,7 @@ from hypothesis import strategies as st
 
 from refs import ode_exact
 from vlib import util
+from vlib import defaults
 from vlib.core import Part
 
 PROPERTY = "C01"
@@ -747,4 +748,7 @@ PARTS = [
     Part("long_diag", oracle, strategy=lambda: long_cases("diag"), quick=(4, 6), thorough=(8, 30)),
     Part("long_nonprop", oracle, strategy=lambda: long_cases("nonprop"), quick=(4, 6), thorough=(8, 30)),
     Part("first_order", oracle_first_order, strategy=first_order_cases, quick=(4, 100), thorough=(16, 1500)),
+    # documented defaults: leaving a keyword out = passing its documented value (vlib/defaults.py)
+    Part("defaults", defaults.make_oracle("C01"), enum=defaults.make_enum(), quick=(1, None), thorough=(1, None),
+         exhaustive=True),
 ]
